@@ -201,7 +201,7 @@ def Dev.recycle (d : Dev) (id : Nat) (tok : Nat) : Option (Dev × Except Err Uni
   match d.held.find? (·.id == id) with
   | none => none
   | some b =>
-    let held := d.held.filter (·.id != id)
+    let held := d.held.eraseP (·.id == id)
     match d.raw.receiveBegin tok b.len with
     | (raw', .error e) => some ({ d with raw := raw', held := held, lost := d.lost + 1 }, .error e)
     | (raw', .ok newTok) =>
